@@ -130,7 +130,20 @@ import (
 // if it declines (outside a simulated run) the real mutex inside is used.
 var SimSync func(op int, m unsafe.Pointer) (handled, ok bool)
 
-type simMutex struct{ real sync.Mutex }
+// simState is the simulator's state of a simulated primitive.  It lives in
+// the object itself (a table keyed by address would hand the state of a
+// collected object to a new one allocated at the same address); during a run
+// only the scheduler goroutine reads and writes it.  The layout is known to
+// sim/kernel/simsync.go.
+type simState struct {
+	w, running, done, _ bool
+	r                   int32
+}
+
+type simMutex struct {
+	st   simState
+	real sync.Mutex
+}
 
 func (m *simMutex) Lock() {
 	if h := SimSync; h != nil {
@@ -160,7 +173,10 @@ func (m *simMutex) TryLock() bool {
 	return m.real.TryLock()
 }
 
-type simRWMutex struct{ real sync.RWMutex }
+type simRWMutex struct {
+	st   simState
+	real sync.RWMutex
+}
 
 func (m *simRWMutex) Lock() {
 	if h := SimSync; h != nil {
@@ -220,7 +236,10 @@ func (m *simRWMutex) TryRLock() bool {
 
 // simOnce replaces sync.Once.  A Once that was completed outside a run (through
 // the real one inside) counts as done.
-type simOnce struct{ real sync.Once }
+type simOnce struct {
+	st   simState
+	real sync.Once
+}
 
 func (o *simOnce) Do(f func()) {
 	if atomic.LoadUint32((*uint32)(unsafe.Pointer(&o.real))) == 1 {
